@@ -605,6 +605,96 @@ pub(super) async fn write_all<C: Io>(
     Ok(())
 }
 
+/// Verification-only projection of one queue entry (`state`: 0 = write, 1 = flush, 2 = sent).
+#[cfg(minimq_verif)]
+#[derive(Debug, Copy, Clone, PartialEq, Eq)]
+pub struct VerifEntry {
+    /// 0 retained, 1 release, 2 PUBACK, 3 PUBREC, 4 PUBCOMP, 5 PINGREQ
+    pub kind: u8,
+    pub packet_id: u16,
+    pub reason: u8,
+    pub offset: usize,
+    pub len: usize,
+    pub state: u8,
+    pub written: usize,
+}
+
+/// Verification-only projection of the outbound queues.
+#[cfg(minimq_verif)]
+#[derive(Debug, Clone, Default)]
+pub struct VerifOutbound {
+    pub used: usize,
+    pub capacity: usize,
+    pub control: Vec<VerifEntry, MAX_PENDING_CONTROL>,
+    pub release: Vec<VerifEntry, MAX_PENDING_RELEASE>,
+    pub retained: Vec<VerifEntry, MAX_RETAINED>,
+}
+
+#[cfg(minimq_verif)]
+impl Outbound<'_> {
+    pub(super) fn verif_snapshot(&self) -> VerifOutbound {
+        fn state(state: SendState) -> (u8, usize) {
+            match state {
+                SendState::Write { written } => (0, written),
+                SendState::Flush => (1, 0),
+                SendState::Sent => (2, 0),
+            }
+        }
+        let mut out = VerifOutbound {
+            used: self.used,
+            capacity: self.buf.len(),
+            ..Default::default()
+        };
+        for entry in &self.pending_control {
+            let (kind, packet_id, reason) = match entry.action {
+                ControlAction::PubAck { packet_id, reason } => (2, packet_id, reason.into()),
+                ControlAction::PubRec { packet_id, reason } => (3, packet_id, reason.into()),
+                ControlAction::PubComp { packet_id, reason } => (4, packet_id, reason.into()),
+                ControlAction::PingReq => (5, 0, 0),
+            };
+            let (state, written) = state(entry.state);
+            let _ = out.control.push(VerifEntry {
+                kind,
+                packet_id,
+                reason,
+                offset: 0,
+                len: 0,
+                state,
+                written,
+            });
+        }
+        for entry in &self.pending_release {
+            let (state, written) = state(entry.state);
+            let _ = out.release.push(VerifEntry {
+                kind: 1,
+                packet_id: entry.packet_id,
+                reason: entry.reason.into(),
+                offset: 0,
+                len: 0,
+                state,
+                written,
+            });
+        }
+        for entry in &self.retained {
+            let (state, written) = state(entry.state);
+            let _ = out.retained.push(VerifEntry {
+                kind: 0,
+                packet_id: entry.packet_id,
+                reason: 0,
+                offset: entry.offset,
+                len: entry.len,
+                state,
+                written,
+            });
+        }
+        out
+    }
+
+    pub(super) fn verif_arena(&self) -> &[u8] {
+        self.buf
+    }
+}
+
 #[cfg(test)]
 mod tests {
     use super::{ControlAction, MAX_FIXED_HEADER_SIZE, Outbound, OutboundStep, SendState};
